@@ -55,6 +55,8 @@ pub enum Spec {
     PMap(usize),
     /// `node.map_ref(|x| x)`
     RefId(usize),
+    /// `pair_node.map_ref(|p| p)` (identity map_ref on a pair-typed node)
+    RefIdP(usize),
     Bind { lhs: usize, then: Rhs, els: Rhs },
 }
 
@@ -76,13 +78,14 @@ impl Spec {
             Spec::Fst(_) => "Fst",
             Spec::PMap(_) => "PMap",
             Spec::RefId(_) => "RefId",
+            Spec::RefIdP(_) => "RefIdP",
             Spec::Bind { .. } => "Bind",
         }
     }
     pub fn inputs(&self) -> Vec<usize> {
         match self {
             Spec::Var | Spec::PVar | Spec::Const => vec![],
-            Spec::Map(a) | Spec::MapWithOld(a) | Spec::Fst(a) | Spec::PMap(a) | Spec::RefId(a) => vec![*a],
+            Spec::Map(a) | Spec::MapWithOld(a) | Spec::Fst(a) | Spec::PMap(a) | Spec::RefId(a) | Spec::RefIdP(a) => vec![*a],
             Spec::Map2(a, b) | Spec::Zip(a, b) | Spec::DependOn(a, b) => vec![*a, *b],
             Spec::Map3(a, b, c) => vec![*a, *b, *c],
             Spec::Fold(v) | Spec::FoldP(v) | Spec::MapN(v) => v.clone(),
@@ -851,6 +854,10 @@ impl World {
                     app(f, &[p.0.clone(), p.1.clone()])
                 }))
             }
+            Spec::RefIdP(a) => {
+                let p = self.p_handle(*a).unwrap();
+                Handle::P(p.map_ref(|x| x))
+            }
             Spec::RefId(a) => {
                 let a = self.s_handle(*a).unwrap();
                 Handle::S(a.map_ref(|x| x))
@@ -883,7 +890,7 @@ impl World {
                 }))
             }
         };
-        if matches!(spec, Spec::Var | Spec::PVar | Spec::Const | Spec::DependOn(..) | Spec::Fst(_) | Spec::RefId(_)) {
+        if matches!(spec, Spec::Var | Spec::PVar | Spec::Const | Spec::DependOn(..) | Spec::Fst(_) | Spec::RefId(_) | Spec::RefIdP(_)) {
             // no harness closure was handed to the engine for this node
             self.sh.guards.borrow_mut().pop();
         }
@@ -1207,7 +1214,7 @@ impl World {
         }
         match &self.nodes[j].spec {
             Spec::Const => false,
-            Spec::RefId(a) => self.g_changed(*a, lo, hi, depth + 1),
+            Spec::RefId(a) | Spec::RefIdP(a) => self.g_changed(*a, lo, hi, depth + 1),
             Spec::Fst(a) => {
                 // map_ref(.0) of a pair var: it produces an unsuppressed result when the var does and
                 // either the projection differs, or the map_ref node was not needed in that round
@@ -1409,6 +1416,19 @@ impl World {
                     }
                     self.c06_val.insert(i, new);
                 }
+                Spec::RefIdP(a) => {
+                    has_fn = false;
+                    // identity map_ref on a pair: shows its input's latest value; default cutoff on the pair gates propagation
+                    let new = self.c06_pval[a].clone();
+                    if first || ns[*a] {
+                        let old = self.c06_pval.get(&i).cloned();
+                        ns[i] = match &old {
+                            None => true,
+                            Some(o) => !exec::decide(F::and(vec![F::eq(&o.0, &new.0), F::eq(&o.1, &new.1)])),
+                        };
+                    }
+                    self.c06_pval.insert(i, new);
+                }
                 Spec::RefId(a) => {
                     has_fn = false;
                     let new = self.c06_val[a].clone();
@@ -1545,6 +1565,7 @@ impl World {
                 }
                 (acc, SV::lit(0))
             }
+            Spec::RefIdP(a) => self.pair_now(*a, memo),
             _ => self.pvars[&p].1.clone(),
         }
     }
@@ -1581,6 +1602,7 @@ impl World {
                 app(f, &[pv.0, pv.1])
             }
             Spec::RefId(a) => self.eval(*a, memo),
+            Spec::RefIdP(_) => panic!("symx: pair map_ref has no scalar value"),
             Spec::Bind { lhs, then, els } => {
                 let l = self.eval(*lhs, memo);
                 let take_then = decide_pred(i as u16, &[l.clone()]);
